@@ -8,6 +8,7 @@ import (
 	"strings"
 
 	"covr/internal/e1"
+	"covr/internal/genr"
 	"covr/internal/verdict"
 	"covr/internal/work"
 )
@@ -23,6 +24,9 @@ type E1Spec struct {
 	// NonTrivial decides whether a compared program counts for distinct_nontrivial.
 	NonTrivial  func(o *e1.Outcome) bool
 	MinDistinct int
+	// Contexts: context variants (genr.Contexts) per directed program of the stream: 0 = tier default
+	// (2 quick, all thorough), < 0 = none.
+	Contexts int
 	// Judge, if set, replaces the default per-outcome judgement (C12).
 	Judge func(c *Ctx, o *e1.Outcome) bool
 }
@@ -82,6 +86,28 @@ func RunE1(c *Ctx, spec E1Spec) []*e1.Outcome {
 			kept = append(kept, p)
 		}
 		spec.Programs = kept
+		// the body of every directed generator additionally in other syntactic contexts
+		if spec.Contexts >= 0 && os.Getenv("COVERIF_NOCTX") == "" {
+			per := spec.Contexts
+			if per == 0 {
+				per = 2
+				if c.Thorough() {
+					per = -1
+				}
+			}
+			if v := os.Getenv("COVERIF_CTX"); v != "" { // experiments: variants per directed program (-1 = all kinds)
+				fmt.Sscan(v, &per)
+			}
+			var directed []*e1.Program
+			for _, p := range kept {
+				if strings.HasPrefix(p.Name, "d:") && !own[p.Name] {
+					directed = append(directed, p)
+				}
+			}
+			ctx := genr.Contexts(directed, c.Seed, per, q)
+			c.Rep.Count("context_variants_of_directed_programs", len(ctx))
+			spec.Programs = append(spec.Programs, ctx...)
+		}
 	}
 	progs := spec.Programs
 	if c.Only != "" {
@@ -122,10 +148,20 @@ func RunE1(c *Ctx, spec E1Spec) []*e1.Outcome {
 	kinds := kindSet(spec.Kinds)
 	feat := map[string]int{}
 	var events, runs, paths, maxTrace, budgetRuns, compared, uncompiled, panicRuns int
-	var notAccepted []string
+	var notAccepted, dropped []string
 	for _, o := range outs {
 		p := o.Prog
-		c.Rep.Eval(1)
+		if o.Run == nil || o.Run.Runs == 0 {
+			c.Rep.Eval(1) // never ran (not accepted / precondition): one evaluation, the compilation attempt
+		} else {
+			c.Rep.Eval(o.Run.Runs) // executions compared: tape paths x consumer histories
+		}
+		c.Rep.Count("programs", 1)
+		if (o.SrcErr != "" || o.RefErr != "") && p.Optional {
+			c.Rep.Count("derived_variants_dropped_by_precondition", 1)
+			dropped = append(dropped, p.Name+": "+firstLine(o.SrcErr+o.RefErr))
+			continue
+		}
 		if o.SrcErr != "" || o.RefErr != "" {
 			c.Rep.HarnessError(fmt.Sprintf("precondition failed for %s (generator/renderer bug, no verdict):\n%s\n%s\n--- source\n%s", p.Name, o.SrcErr, o.RefErr, o.CoSource))
 			continue
@@ -221,6 +257,12 @@ func RunE1(c *Ctx, spec E1Spec) []*e1.Outcome {
 			notAccepted = notAccepted[:30]
 		}
 		c.Rep.Set("not_accepted_list", notAccepted)
+	}
+	if len(dropped) > 0 {
+		if len(dropped) > 30 {
+			dropped = dropped[:30]
+		}
+		c.Rep.Set("derived_variants_dropped_list", dropped)
 	}
 	c.Rep.Count("programs_compared", compared)
 	c.Rep.Count("events_observed", events)
